@@ -182,6 +182,14 @@ def slot_writes(fi):
                 if isinstance(b, ast.Attribute) and b.attr in ALL_SLOTS \
                         and node.func.attr == "update":
                     out.append((b.attr, norm(b.value), list(node.args), node))
+                elif node.func.attr == "setdefault" and isinstance(
+                        node.func.value, ast.Attribute) and \
+                        node.func.value.attr in ALL_SLOTS and \
+                        len(node.args) == 2:
+                    # X.slot.setdefault(k, v) stores v (when k is new)
+                    out.append((node.func.value.attr,
+                                norm(node.func.value.value),
+                                [node.args[1]], node))
     return out
 
 
